@@ -5,7 +5,7 @@ import random
 
 import vlib
 
-INV = "DirichletIdentity StencilShape Symmetric RowSumIsMass SignStructure SamePhaseUncoupled OverlapUncoupled LineBlockShape ExtrapolatedLineKinds"
+INV = "DirichletIdentity StencilShape Symmetric RowSumIsMass ConstantSolutionExact SignStructure SamePhaseUncoupled OverlapUncoupled LineBlockShape ExtrapolatedLineKinds"
 
 
 def families(tier, which="ab"):
@@ -16,6 +16,7 @@ def families(tier, which="ab"):
                 ("c", "{5}", "{12}", "{1,3}", "{2}", 2, "Pa3")]
     fams = [("a", "{5}", "{4}", "{1,2}", "{0,2,3,5}", 0, "Pa3"),
             ("b", "{7}", "{4,8}", "{1,2}", "{3,4}", 2, "Pa3"),
+            ("d", "{7}", "{4}", "{1,2}", "{3}", 2, "Pa3"),          # small family for the right-hand-side discretisation (C01)
             ("c", "{5,7}", "{12}", "{1,2}", "{2,3}", 2, "Pa3")]     # ntheta divisible by 3: the third remainder class of the 3-pass assemblies
     return [f for f in fams if f[0] in which]
 
